@@ -351,9 +351,50 @@ func TestCheck(t *testing.T) {
 			dev := centreDeviation(img, cs.Scale)
 			return dev < 0 || dev >= 0.5
 		})
+		// second class: the centre estimate is right, but the ring walk accepts one ring too many
+		// (ring count 6 for a compact, 8 for a full-range symbol). Keyed to the library's own
+		// diagnostic and to the fact that the very same symbol is read at another scale in the same
+		// rotation - a defect in the symbol handling itself would not go away with the scale.
+		c.RegisterMatcher("aztec-bullseye-ring-overcount", func(raw json.RawMessage, err error) bool {
+			var cs Case
+			if json.Unmarshal(raw, &cs) != nil || cs.Level != "image" || cs.Layers == 0 {
+				return false
+			}
+			want := "nbCenterLayers = 8"
+			if cs.Compact {
+				want = "nbCenterLayers = 6"
+			}
+			if !strings.Contains(err.Error(), "AztecReader.Decode failed") || !strings.Contains(err.Error(), want) {
+				return false
+			}
+			img, e := rebuild(cs)
+			if e != nil {
+				return false
+			}
+			if dev := centreDeviation(img, cs.Scale); dev < 0 || dev >= 0.5 {
+				return false
+			}
+			others := 0
+			for sc := 2; sc <= 5; sc++ {
+				if sc == cs.Scale {
+					continue
+				}
+				c2 := cs
+				c2.Scale = sc
+				im2, e2 := rebuild(c2)
+				if e2 != nil {
+					continue
+				}
+				bmp, _ := gozxing.NewBinaryBitmapFromImage(im2)
+				if _, e3 := aztec.NewAztecReader().Decode(bmp, nil); e3 == nil {
+					others++
+				}
+			}
+			return others >= 2
+		})
 	}, func(c *hx.Ctx) {
 		// (1) high-level decode of token walks
-		c.Rapid("high_level_walks", c.N(2500, 25000), func(t *rapid.T) {
+		c.Rapid("high_level_walks", c.N(2500, 80000), func(t *rapid.T) {
 			toks, used := walk(t, rapid.IntRange(5, 600).Draw(t, "bits"))
 			cs := Case{Tokens: toks, Level: "bits"}
 			cl, nt := classOf(azref.Spec{}, used, "")
@@ -398,7 +439,7 @@ func TestCheck(t *testing.T) {
 			})
 		}
 		// (3) image level: located in all four orientations
-		c.Rapid("image_level", c.N(120, 1500), func(t *rapid.T) {
+		c.Rapid("image_level", c.N(120, 5000), func(t *rapid.T) {
 			spec := specs[rapid.IntRange(0, len(specs)-1).Draw(t, "spec")]
 			if !c.Thorough() && spec.Layers > 12 && rapid.IntRange(0, 3).Draw(t, "skipbig") != 0 {
 				spec = specs[rapid.IntRange(0, 12).Draw(t, "smallspec")]
